@@ -3,6 +3,7 @@
 from __future__ import annotations
 
 import itertools
+import os
 
 import numpy as np
 
@@ -524,7 +525,7 @@ def run(ctx):
     from mc.pool import pmap
 
     max_norb = 3 if ctx.thorough else 2
-    depth = 4 if ctx.thorough else 3
+    depth = int(os.environ.get("C12_DEPTH", 5 if ctx.thorough else 3))
     oracle = Oracle(ctx)
     inits = [(s,) for s in starts(max_norb)]
     g = esb.bfs(inits, ops_of, build, canon, oracle.on_transition, depth, on_state=oracle.on_state)
